@@ -20,6 +20,14 @@ MINIMUM = {'R09.1': 6, 'R09.2': 4, 'R09.3': 3, 'R09.4': 3, 'R09.5': 3, 'R09.6': 
 SUFFIX = '.trashinfo'
 
 
+# rules of sibling properties that are necessary conditions of this one too
+# (evaluated by the sibling module on the same graphs, reported under this property)
+ALSO = {'C03': {'R03.1': 'what list prints is the decoded Path exactly as written'},
+ 'C04': {'R04.6': 'an entry must not lose its .trashinfo to a concurrent trash-put'},
+ 'C10': {'R10.1': 'after trash-empty N exactly the entries older than N days are gone',
+         'R10.2': 'after trash-empty N exactly the entries older than N days are gone'},
+ 'C20': {'R20.2': 'list/rm/restore show the same location for an entry'}}
+
 def suffix_guarded(b, node, entry_term):
     """The listing element is tested with endswith('.trashinfo')."""
     for c, pol, n in guards(b, node.id):
@@ -44,6 +52,24 @@ def degenerate_name_test(c):
         return bool(consts) and (consts <= {'', '.', '..'} or
                                  consts <= {'.trashinfo', '..trashinfo', '...trashinfo'})
     return False
+
+
+def accepted_name_test(c2):
+    """Tests on a name listed from info/ that do not drop a genuine entry: the suffix
+    test, the type tag derived from it, the degenerate-name exclusion -- and boolean
+    combinations of those (a predicate helper returning "a and b")."""
+    c2, _ = unwrap_not(c2, True)
+    if isinstance(c2, BoolT):
+        return all(accepted_name_test(v) for v in c2.values)
+    if isinstance(c2, Phi):
+        return all(accepted_name_test(a) or isinstance(strip(a), Const) for a in c2.terms())
+    if isinstance(c2, MCall) and c2.name == 'endswith' and c2.args and \
+            is_const(strip(c2.args[0]), SUFFIX):
+        return True
+    if isinstance(c2, Cmp) and c2.op == '==' and is_const(strip(c2.right),
+                                                         'trashinfo', 'non_trashinfo'):
+        return True
+    return degenerate_name_test(c2)
 
 
 def check(ctx):
@@ -111,13 +137,7 @@ def check(ctx):
                     continue
                 if contains(c2, lambda x: isinstance(x, Call) and x.fn in ('open', 'io.open')):
                     continue      # a test on the content read, not on the name
-                if isinstance(c2, MCall) and c2.name == 'endswith' and c2.args and \
-                        is_const(strip(c2.args[0]), SUFFIX):
-                    continue
-                if isinstance(c2, Cmp) and c2.op == '==' and is_const(strip(c2.right),
-                                                                     'trashinfo', 'non_trashinfo'):
-                    continue
-                if degenerate_name_test(c2):
+                if accepted_name_test(c2):
                     continue
                 extra.append(n)
             ctx.ob('R09.6', '%s: every name in info/ ending in ".trashinfo" is an entry (no '
